@@ -49,12 +49,31 @@ BuildEv(s0, in, s1) ==
                          disc |-> IF lost # {} THEN CHOOSE x \in lost : TRUE ELSE -1]
               IN base @@ [items |-> <<it>>]
          [] in.k = "adv" -> base @@ [dt |-> in.dt]
-         [] in.k = "read" ->
-              rxf(1, s1.mlast.seq, FALSE, [i \in 1..Len(s1.mlast.hs) |-> HdrRec(s1.mlast.hs[i])],
-                  Intern(s0, s1.mlast).id + 1000) @@ base
-         [] in.k = "req" ->
-              rxf(FcOf(s1.mlast.k), s1.mlast.seq, FALSE, ClsHdrs(s1.mlast.cl),
-                  Intern(s0, s1.mlast).id + 1000) @@ base
+         [] in.k \in {"read", "req"} ->
+              \* the fragment as sent (a repeat re-sends the previous bytes)
+              LET b == IF s0.pc \in {"Down", "Dead"} THEN
+                          [k |-> IF in.k = "read" THEN "read" ELSE in.f, seq |-> in.seq,
+                           hs |-> IF in.k = "read" THEN in.hs ELSE <<>>,
+                           cl |-> IF in.k = "req" THEN in.cl ELSE {},
+                           ob |-> Fld(in, "ob", ""), bad |-> Fld(in, "bad", "")]
+                       ELSE s1.mlast
+                  isCtl == b.k \in {"select", "operate", "dop", "dopnr"}
+                  hdrs == CASE b.k = "read" /\ b.bad = "" -> [i \in 1..Len(b.hs) |-> HdrRec(b.hs[i])]
+                            [] b.k \in {"enable", "disable"} -> ClsHdrs(b.cl)
+                            [] isCtl -> <<[g |-> 12, v |-> 1, q |-> 23, a |-> 1, b |-> -1]>>
+                            [] b.k = "write_rst" -> <<[g |-> 80, v |-> 1, q |-> 0, a |-> 7, b |-> 7]>>
+                            [] OTHER -> <<>>
+                  robjs == CASE isCtl -> <<CtlObj(b.ob, 0)>>
+                             [] b.k = "write_rst" ->
+                                  <<[g |-> 80, v |-> 1, ix |-> 7, ty |-> "", ev |-> FALSE, val |-> "0",
+                                     fl |-> -1, tm |-> "", tq |-> "", st |-> -1]>>
+                             [] OTHER -> <<>>
+                  bid == Intern(s0, b).id + 1000
+                  r == rxf(FcOf(b.k), b.seq, FALSE, hdrs, bid)
+              IN [r EXCEPT !.src = Fld(in, "src", "M"), !.dst = Fld(in, "dst", "U"),
+                           !.wf = b.bad # "badobj", !.robjs = robjs,
+                           !.obid = IF isCtl THEN 2000 + CtlIx(b.ob) ELSE bid]
+                 @@ [base EXCEPT !.cls = IF b.bad # "" THEN b.bad ELSE "ok"]
          [] in.k = "conf" -> rxf(0, in.seq, in.uns, <<>>, 999) @@ base
          [] OTHER -> base
 
